@@ -716,13 +716,19 @@ class Interp:
         """Python index normalisation with IndexError; returns index in [0, n)."""
         i = self._num(i)
         if isinstance(i, int) and isinstance(n, int):
-            if -n <= i < n:
+            nowrap = self.frames and getattr(getattr(self.frames[-1], 'funcnode', None), '_pyx_flags', {}).get('wraparound') is False
+            if (0 if nowrap else -n) <= i < n:
                 return i % n if n else i
             raise PyRaise('IndexError')
         zi, zn = to_z3(i), to_z3(n)
         if self.spec_mode:
             return z3.simplify(z3.If(zi < 0, zi + zn, zi))
         if self.valid(z3.And(0 <= zi, zi < zn)):
+            return i
+        if self.frames and getattr(getattr(self.frames[-1], 'funcnode', None), '_pyx_flags', {}).get('wraparound') is False:
+            # Cython wraparound(False) [+ boundscheck(False)]: a negative or too large index is an access outside the buffer
+            if self.branch(z3.Or(zi < 0, zi >= zn)):
+                raise PyRaise('IndexError')
             return i
         if self.branch(zi < 0):
             if self.branch(zi < -zn):
@@ -1165,6 +1171,9 @@ class Interp:
 
     def lookup_global(self, mod, name):
         from . import builtins_model
+        if f'global:{name}' in self.hooks:
+            h = self.hooks[f'global:{name}']
+            return Builtin(h, name) if callable(h) else h
         if mod is not None:
             if name in mod.functions:
                 return FuncVal(mod, mod.functions[name])
